@@ -25,9 +25,12 @@ def run(ctx):
     v = vlib.Verdict(ctx)
     # 1. TLC generates the inputs: every behaviour of length 1 and 2 (thorough) / 1 (quick) and simulated ones of length 8
     r1, b1 = behaviours(ctx, "MC_RobustEnv_1.cfg")
-    r2, b2 = (None, [])
-    if not ctx.quick:
-        r2, b2 = behaviours(ctx, "MC_RobustEnv.cfg")
+    r2, b2 = behaviours(ctx, "MC_RobustEnv.cfg")
+    if ctx.quick:
+        # the quick tier replays a seeded sample of the complete length-2 product
+        import random
+        rnd = random.Random(ctx.seed)
+        b2 = rnd.sample(b2, min(250, len(b2)))
     nsim = 60 if ctx.quick else 4000
     rs, bs_all = behaviours(ctx, "MC_RobustEnv_sim.cfg", simulate="num=%d" % nsim, depth=9, seed=ctx.seed, timeout=3000)
     # simulation evaluates the export on every successor of the last chosen state: keep one behaviour per prefix
